@@ -46,3 +46,6 @@ func verifCrashPoint(name string) {
 		select {} // never continue past the point
 	}
 }
+
+// VerifCrashPoint is the entry for instrumented copies in other packages (compaction).
+func VerifCrashPoint(name string) { verifCrashPoint(name) }
